@@ -376,6 +376,7 @@ int main(int argc, char** argv) {
         opts.noFork = noFork;
         opts.directEsmry = writeEsmry;
         opts.ministepIdsKnown = false;
+        opts.slotOrderKnown = false;
         const bool finished = examine(rep, rng, m, all, opts);
         size_t nsteps = 0;
         for (auto* r : all) nsteps += r->data.size();
